@@ -282,15 +282,17 @@ def obligations(tier: str) -> List[dict]:
             tree(m, 2, 300, ['role-changed'])
     else:
         for m in ('default', 'noop', 'custom'):
-            laws(m, True, 9, 3000, ['inverted'] if m != 'noop' else [])
-            laws(m, False, 5, 3000)
+            laws(m, True, 9, 1800, ['inverted'] if m != 'noop' else [])
+            laws(m, False, 5, 1800)
         obs.append({'name': f'E2 AMR structured roles ({ncat} bases x k<=4)',
                     'kind': 'e2', 'fn': 'h_amr_laws', 'fixed': {},
                     'timeout': 1500, 'bound': f'{ncat} bases, k in 0..4',
                     'need_marks': ['defined', 'inverted', 'pair-added']})
         for m in ('default', 'amr', 'custom', 'noop'):
+            tree(m, 2, 900, ['role-changed'])
             for op in (0, 1):
-                tree(m, 3, 3000, i0_op=op)
+                for r0 in range(6):
+                    tree(m, 3, 1800, i0_op=op, i0_r=r0)
     return obs
 
 
